@@ -23,6 +23,7 @@ var commonAssumptions = []string{
 	"Go memory model and the documented semantics of sync.Mutex/RWMutex, channels and defer",
 	"the type-checked source of /repo's working tree is what gets built (no build tags or generated files in pike; go/packages ./... with the module's own go.mod)",
 	"library code (net/http, elton, groupcache/lru, badger, redis, mongo, codecs) behaves as documented; it is not analysed in the quick tier",
+	"exported error sentinels of libraries (io.EOF, Err*) are non-nil",
 	"no reflection/unsafe writes to pike's struct fields from other packages (the two unsafe conversions in pike are checked by C06)",
 }
 
@@ -35,6 +36,7 @@ func main() {
 	depth := flag.Int("depth", 0, "debug: inline depth for -dump")
 	list := flag.Bool("list", false, "list pike functions")
 	noEvidence := flag.Bool("no-evidence", false, "do not write evidence/replay files (self-test runs on scratch copies)")
+	coverage := flag.Bool("coverage", false, "debug: after the run, list the pike functions whose paths no rule enumerated")
 	describe := flag.Bool("describe", false, "print the registered properties and what each check decides (JSON)")
 	flag.Parse()
 	if *describe {
@@ -123,7 +125,18 @@ func main() {
 		t1 := time.Now()
 		pi := properties[id]
 		c := &Ctx{P: p, Prop: id, Tier: *tier, FixDir: filepath.Join(vdir, "checker", "fixture"), Explain: pi.explain, Assume: append(append([]string{}, commonAssumptions...), pi.assume...)}
+		simBefore := map[*ssa.Function]bool{}
+		for f := range simulated {
+			simBefore[f] = true
+		}
+		if !*coverage {
+			simulated = map[*ssa.Function]bool{}
+		}
 		pi.run(c)
+		enumerated := len(simulated)
+		for f := range simBefore {
+			simulated[f] = true
+		}
 		goarch := "host"
 		if *tier == "thorough" && needs386[id] {
 			// repeat the property's rules with 32-bit int (goreleaser's default matrix builds 386)
@@ -146,12 +159,13 @@ func main() {
 			os.Exit(2)
 		}
 		analysed := map[string]interface{}{
-			"repo":           p.Repo,
-			"packages":       len(p.Pkgs),
-			"pike_functions": len(p.PikeFuncs()),
-			"whole_program":  p.Whole,
-			"goarch":         goarch,
-			"load_s":         t1.Sub(t0).Seconds(),
+			"repo":                                  p.Repo,
+			"packages":                              len(p.Pkgs),
+			"pike_functions":                        len(p.PikeFuncs()),
+			"whole_program":                         p.Whole,
+			"functions_whose_paths_were_enumerated": enumerated,
+			"goarch":                                goarch,
+			"load_s":                                t1.Sub(t0).Seconds(),
 		}
 		if *noEvidence {
 			r := finishNoFiles(c, known)
@@ -162,6 +176,21 @@ func main() {
 		}
 		if r := finish(c, vdir, known, t1, analysed); r > rc {
 			rc = r
+		}
+	}
+	if *coverage {
+		miss := []string{}
+		tot := 0
+		for _, f := range p.PikeFuncs() {
+			tot++
+			if !simulated[f] {
+				miss = append(miss, fmt.Sprintf("%s  %s", p.pos(f.Pos()), funcName(f)))
+			}
+		}
+		sort.Strings(miss)
+		fmt.Printf("path rules enumerated %d of %d pike functions; not enumerated:\n", tot-len(miss), tot)
+		for _, m := range miss {
+			fmt.Println("  " + m)
 		}
 	}
 	os.Exit(rc)
